@@ -966,11 +966,11 @@ func (e *e4Engine) parserTable() map[int64]types.Type {
 	return tab
 }
 
-var parserTabCache map[int64]types.Type
+var parserTabCache = map[*Prog]map[int64]types.Type{}
 
 func (e *e4Engine) assertByParserTable(x *ssa.TypeAssert) (string, bool) {
-	if parserTabCache == nil {
-		parserTabCache = e.parserTable()
+	if parserTabCache[e.c.P] == nil {
+		parserTabCache[e.c.P] = e.parserTable()
 	}
 	// operand: call GetOne(code) on Options-like receiver, or element of Get(code)
 	v := x.X
@@ -1033,7 +1033,7 @@ func (e *e4Engine) assertByParserTable(x *ssa.TypeAssert) (string, bool) {
 	if !ok {
 		return "", false
 	}
-	t, ok := parserTabCache[k]
+	t, ok := parserTabCache[e.c.P][k]
 	if !ok {
 		return "", false
 	}
